@@ -1,12 +1,12 @@
 #!/bin/sh
-# tools/seedconfirm3.sh <seed>   -- confirm a seed stored in /verif/seeded/<seed> in the worktree /tmp/vt-repo:
+# tools/seedconfirm3.sh <seed>   -- confirm a seed stored in /verif/seeded/<seed> in the worktree /tmp/vc-repo (git -C /repo worktree add --detach /tmp/vc-repo HEAD):
 # the patch applies, the full suite passes with it, the demonstration fails with it and passes without it.
 # Demonstration forms: demo.rs (integration test, copied to tests/seed_demo.rs), demo.sh [binary] (shell script run
 # with the debug binary built from the worktree; exit 0 = pass), demo.diff (second patch adding a #[cfg(test)] unit
 # test whose name contains "seed_demo" or is given in demo_test.txt).
 S=/verif/seeded/$1
-export CARGO_TARGET_DIR=/tmp/vt/.cache/repo-target
-cd /tmp/vt-repo || exit 2
+export CARGO_TARGET_DIR=/tmp/vc-target
+cd /tmp/vc-repo || exit 2
 clean() { git checkout -q -- .; git clean -fdq tests src 2>/dev/null; }
 git checkout -q --detach "$(git -C /repo rev-parse HEAD)"; clean
 demo() {   # prints PASS / FAIL
